@@ -12,6 +12,7 @@ G1_30   == {1, 30}
 G013530 == {0, 1, 3, 5, 30}
 One     == {1}
 OneTwo  == {1, 2}
+Three   == {3}
 Both    == {TRUE, FALSE}
 OnlyOn  == {TRUE}
 AllPcs  == {"loop", "next", "cmp", "arm", "sleep", "decide", "shooting", "done"}
